@@ -43,6 +43,7 @@ type replayFile struct {
 func runOne(t *testing.T, cfg scen.Config, tp *tape.Tape, seed uint64) (res scen.Result) {
 	res.Prop = cfg.Prop
 	res.Seed = seed
+	res.SigSuffix = cfg.Finding
 	sc := scen.Registry[cfg.Prop]
 	if sc == nil {
 		res.Verdict = "anomaly"
